@@ -333,6 +333,18 @@ impl Default for CacheWrite {
     }
 }
 
+/// Verification hook (only with `--cfg sccache_verif`): an entry without objects
+/// whose encoded form is exactly `22 + comment.len()` bytes, so that the external
+/// harness can store entries of a chosen size and recognisable content.
+#[cfg(sccache_verif)]
+impl CacheWrite {
+    pub fn verif_with_comment(comment: Vec<u8>) -> CacheWrite {
+        let mut entry = CacheWrite::new();
+        entry.zip.set_raw_comment(comment);
+        entry
+    }
+}
+
 /// An interface to cache storage.
 #[async_trait]
 pub trait Storage: Send + Sync {
